@@ -183,7 +183,8 @@ func lexDatadogSpecial(l *Lexer) stateFn {
 }
 
 func lexEventBody(l *Lexer) stateFn {
-	if l.len-l.pos < l.eventTitleLen+1+l.eventTextLen {
+	// The sum is computed in 64 bits: both lengths come from the wire and may be close to MaxUint32.
+	if uint64(l.len-l.pos) < uint64(l.eventTitleLen)+1+uint64(l.eventTextLen) {
 		l.err = errNotEnoughData
 		return nil
 	}
